@@ -214,6 +214,24 @@ func c06HandoffAs(c *cx, id string) {
 			}
 			c.r.Check(id, f, "stanza name test of the hand-off", "G: the name matches exactly, or by local name for an element of a stanza namespace", f.Pos(), bad == "", "the hand-off is also taken when "+bad+": an element that is merely called iq in a foreign namespace is delivered as the response and never reaches the handler")
 		}
+		// ... and by nothing else: a reply of the right kind, name and id is the
+		// answer, whoever's spelling of the address it carries (a raw comparison
+		// of from with the request's to refuses room@Example.NET/me for
+		// room@example.net/me: the waiter gets its context's error instead of
+		// the room's answer, and the answer goes to the handler)
+		{
+			var extra []string
+			for _, a := range g.FactsAt(src) {
+				switch {
+				case eng.Glob("commaok(p0.sentStanzas[*])", a), strings.Contains(a, ".stanzaName"),
+					eng.Glob("or(eq(xmpp.getIDTyp(*)#3,*) | eq(xmpp.getIDTyp(*)#3,*))", a) && !strings.Contains(a, "sentStanzas"), eng.Glob("eq(xmpp.getIDTyp(*)#3,*)", a) && !strings.Contains(a, "sentStanzas"),
+					strings.HasPrefix(a, "istype("), strings.HasPrefix(a, "!istype("), strings.HasPrefix(a, "eq(") && strings.HasSuffix(a, ",nil)"):
+				default:
+					extra = append(extra, a)
+				}
+			}
+			c.r.Check(id, f, "hand-off [no other condition]", "G(exact): the hand-off depends on the table hit, the stanza name and the reply type only", f.Pos(), len(extra) == 0, "additional conditions: "+strings.Join(extra, " ; "))
+		}
 		okt, why2 := g.DominatedAny(src, []string{"or(eq(xmpp.getIDTyp(*)#3,\"error\") | eq(xmpp.getIDTyp(*)#3,\"result\"))"})
 		c.r.Check(id, f, "hand-off only for replies", "G: only stanzas of type result or error are correlated", f.Pos(), okt, why2)
 	}
